@@ -574,7 +574,7 @@ class _SetOperation(Selectable, Term):
                 else self.base_query.wrap_constant(field)
             )
 
-            self._orderbys.append((field, kwargs.get("order")))
+            self._orderbys = self._orderbys + [(field, kwargs.get("order"))]
 
     @builder
     def limit(self, limit: int) -> "_SetOperation":
@@ -586,23 +586,23 @@ class _SetOperation(Selectable, Term):
 
     @builder
     def union(self, other: Selectable) -> "_SetOperation":
-        self._set_operation.append((SetOperation.union, other))
+        self._set_operation = self._set_operation + [(SetOperation.union, other)]
 
     @builder
     def union_all(self, other: Selectable) -> "_SetOperation":
-        self._set_operation.append((SetOperation.union_all, other))
+        self._set_operation = self._set_operation + [(SetOperation.union_all, other)]
 
     @builder
     def intersect(self, other: Selectable) -> "_SetOperation":
-        self._set_operation.append((SetOperation.intersect, other))
+        self._set_operation = self._set_operation + [(SetOperation.intersect, other)]
 
     @builder
     def except_of(self, other: Selectable) -> "_SetOperation":
-        self._set_operation.append((SetOperation.except_of, other))
+        self._set_operation = self._set_operation + [(SetOperation.except_of, other)]
 
     @builder
     def minus(self, other: Selectable) -> "_SetOperation":
-        self._set_operation.append((SetOperation.minus, other))
+        self._set_operation = self._set_operation + [(SetOperation.minus, other)]
 
     def __add__(self, other: Selectable) -> "_SetOperation":
         return self.union(other)
@@ -778,6 +778,7 @@ class QueryBuilder(Selectable, Term):
         newone._updates = copy(self._updates)
         newone._force_indexes = copy(self._force_indexes)
         newone._use_indexes = copy(self._use_indexes)
+        newone._using = copy(self._using)
         return newone
 
     @builder
@@ -1004,7 +1005,7 @@ class QueryBuilder(Selectable, Term):
 
         elif 0 < len(self._groupbys) and isinstance(self._groupbys[-1], Rollup):
             # If a rollup was added last, then append the new terms to the previous rollup
-            self._groupbys[-1].args += terms
+            self._groupbys[-1] = Rollup(*self._groupbys[-1].args, *terms)
 
         else:
             self._groupbys.append(Rollup(*terms))
@@ -1870,7 +1871,7 @@ class CreateQueryBuilder:
                 column = Column(column)
             elif isinstance(column, tuple):
                 column = Column(column_name=column[0], column_type=column[1])
-            self._columns.append(column)
+            self._columns = self._columns + [column]
 
     @builder
     def period_for(
@@ -1891,7 +1892,7 @@ class CreateQueryBuilder:
         :return:
             CreateQueryBuilder.
         """
-        self._period_fors.append(PeriodFor(name, start_column, end_column))
+        self._period_fors = self._period_fors + [PeriodFor(name, start_column, end_column)]
 
     @builder
     def unique(self, *columns: Union[str, Column]) -> "CreateQueryBuilder":
@@ -1906,7 +1907,7 @@ class CreateQueryBuilder:
         :return:
             CreateQueryBuilder.
         """
-        self._uniques.append(self._prepare_columns_input(columns))
+        self._uniques = self._uniques + [self._prepare_columns_input(columns)]
 
     @builder
     def primary_key(self, *columns: Union[str, Column]) -> "CreateQueryBuilder":
@@ -2134,7 +2135,7 @@ class CreateIndexBuilder:
                 column = Column(column)
             elif isinstance(column, tuple):
                 column = Column(column_name=column[0], column_type=column[1])
-            self._columns.append(column)
+            self._columns = self._columns + [column]
 
     @builder
     def on(self, table: Union[Table, str]) -> "CreateIndexBuilder":
